@@ -130,6 +130,34 @@ class TickProcess(Process):
         return {'vars': {self.parameters['var']: 1}}
 
 
+class TickStep(Step):
+    """a step that adds 1 to ('vars', var) in every phase; used as a parallel step declared through the
+    `processes` dictionary (the legacy placement of derivers) by the shutdown sweep of C13"""
+    defaults = {'var': 's'}
+
+    def ports_schema(self):
+        return {'vars': {self.parameters['var']: {'_default': 0, '_emit': True}}}
+
+    def next_update(self, timestep, states):
+        return {'vars': {self.parameters['var']: 1}}
+
+
+class UnitTick(Process):
+    """adds 1 fg to ('vars','mass') every time unit: quantities cross the pipe when the process is parallel"""
+    defaults = {'var': 'mass'}
+
+    def ports_schema(self):
+        from vivarium.library.units import units
+        return {'vars': {self.parameters['var']: {'_default': 0.0 * units.fg, '_emit': True}}}
+
+    def calculate_timestep(self, states):
+        return 1
+
+    def next_update(self, timestep, states):
+        from vivarium.library.units import units
+        return {'vars': {self.parameters['var']: 1.0 * units.fg}}
+
+
 class Killer(Process):
     """serial process with timestep 1 that, at its `at`-th invocation, deletes or divides the
     compartment `target` of the 'agents' store"""
